@@ -162,6 +162,19 @@ def probe (fixed : α) (p : ProbeP α) (energy : α → GRec α → GRec α → 
                   fE := energyFactor p e0 e1, fP := pkaFactor p i1 i2, fI := interFactor p ie })
 end
 
+section
+variable {α : Type} [Add α] [Sub α] [Mul α] [Div α] [Neg α] [NatCast α] [LT α] [LE α] [DecidableLT α] [DecidableLE α]
+/-- `identify_non_covalently_coupled_groups` with the display switched off, on the table of group records: the probe of
+    every visited pair, one after the other, each writing back the state it leaves on its two groups.  `energy gs` is the
+    folding energy of the conformation in state `gs` as a function of the state of the probed pair, `intr` the intrinsic
+    pKa of a record; `dflt` stands in for an index outside the table. -/
+def identify (fixed : α) (p : ProbeP α) (energy : Array (GRec α) → α → GRec α → GRec α → α) (intr : GRec α → α) (dflt : GRec α)
+    (pairs : List (Nat × Nat)) (gs : Array (GRec α)) : Array (GRec α) :=
+  pairs.foldl (fun gs ab =>
+    let r := probe fixed p (energy gs) (intr (gs.getD ab.1 dflt)) (intr (gs.getD ab.2 dflt)) (gs.getD ab.1 dflt) (gs.getD ab.2 dflt)
+    (gs.setIfInBounds ab.1 r.1.1).setIfInBounds ab.2 r.1.2) gs
+end
+
 /-! ### determinant rows of the .pka table -/
 /-- line `i` of a group's block: the i-th determinant of each kind, or the filler -/
 def rowsOf {β : Type} (sc bb cb : List β) : List (Option β × Option β × Option β) :=
